@@ -247,6 +247,9 @@ def r12_10(run, model):
     n = 0
     for name, f in sorted(fns.items()):
         deciders = [c["cond"] for c in S.walk(f.body) if c["k"] in ("If", "While")]
+        # iterator adaptors that select tokens decide as well
+        deciders += [c["args"][0]["body"] for c in S.walk(f.body) if c["k"] == "MethodCall" and c["args"] and c["args"][0]["k"] == "Closure" and
+                     c["method"] in ("filter", "skip_while", "take_while", "position", "find", "any", "all", "filter_map", "rposition")]
         if (f.node.get("ret") or "").strip() == "bool" and f.body["stmts"] and f.body["stmts"][-1]["k"] == "ExprStmt":
             deciders.append(f.body["stmts"][-1]["expr"])
         for d in deciders:
@@ -256,7 +259,7 @@ def r12_10(run, model):
                    f"`{S.norm_ws(run.facts.text(INPUT, d['sp']))[:60]}`" + (f": {off[0]}" if off else ""),
                    witness="with lexer Error tokens skipped by the cursor but not by build_tree, the builder falls one token behind per stray `$`: "
                            "the last tokens never enter the tree and it no longer spells the input")
-    run.floor("token-kind decisions in parser/input.rs", n, 8)
+    run.floor("token-kind decisions in parser/input.rs", n, 5)
     bt = model.fn("build_tree", PARSER)
     loops = [w for w in S.find(bt.body, "While") if w["cond"]["k"] == "Let"]
     ok = False
